@@ -4,6 +4,7 @@ import (
 	"fmt"
 	"go/token"
 	"go/types"
+	"sort"
 	"strings"
 
 	"golang.org/x/tools/go/ssa"
@@ -95,6 +96,7 @@ func (vc *VC) havocAll() {
 		vc.checkLoopStore(k, "*")
 	}
 	vc.havocPrefix(vc.curMem, "") // every memory, including keys not touched so far
+	vc.epochBound[vc.epoch] = vc.callBound()
 	vc.havocked = true
 }
 
@@ -151,10 +153,18 @@ func (vc *VC) applyContract(con *Contract, key string, names []string, args []SV
 		o := vc.oblige("requires", R, vc.evalBool(r.E, env), pos, fmt.Sprintf("precondition %d of %s: %s", r.Ord, shortFuncName(key), r.Text))
 		o.Safety = true
 	}
+	// whatever the callee allocated lies below a new, larger allocation bound
+	cb := vc.callBound()
+	vc.pendingBound = cb
 	// modifies
+	epoch0 := vc.epoch
+	var exactMods []string
 	for _, m := range con.Mods {
 		if m.Loop != 0 {
 			continue
+		}
+		if _, wild := isWildKey(m.Key); !wild {
+			exactMods = append(exactMods, m.Key)
 		}
 		if p, wild := isWildKey(m.Key); wild {
 			vc.checkLoopStore(p, "*")
@@ -176,12 +186,50 @@ func (vc *VC) applyContract(con *Contract, key string, names []string, args []SV
 			vc.curMem.m[m.Key] = vc.def("Mc_"+m.Key, memSort(leaf), sto(M, obj, a))
 		}
 	}
+	vc.pendingBound = ""
+	for ep := epoch0 + 1; ep <= vc.epoch; ep++ {
+		vc.epochBound[ep] = cb
+	}
 	result := vc.fresh(rt, "r_"+lastSeg(key))
+	vc.objsBelow(result, cb)
 	post := &Env{vc: vc, vars: map[string]SVal{}, mem: vc.curMem, old: env}
 	for k, v := range env.vars {
 		post.vars[k] = v
 	}
 	bindResults(post, sig, result)
+	// preserves cond: patterns  -> matching memories equal the pre-call ones when cond holds
+	for _, pc := range con.Preserves {
+		cond := vc.evalBool(pc.E, post)
+		for ep := epoch0 + 1; ep <= vc.epoch; ep++ {
+			vc.aliases[ep] = append(vc.aliases[ep], memAlias{patterns: pc.Patterns, cond: cond, guard: R, pre: pre})
+		}
+		for _, k := range exactMods {
+			if cur, ok := vc.curMem.m[k]; ok && keyMatches(pc.Patterns, k) {
+				vc.fact(R, implies(cond, eq(cur, vc.memGet(pre, k, vc.keySort[k]))))
+			}
+		}
+	}
+	if len(con.Preserves) > 0 {
+		// keys of the new epochs that were materialised before the aliases were registered
+		var ks []string
+		for k := range vc.curMem.m {
+			ks = append(ks, k)
+		}
+		sort.Strings(ks)
+		for _, k := range ks {
+			name := vc.curMem.m[k]
+			for ep := epoch0 + 1; ep <= vc.epoch; ep++ {
+				if name == fmt.Sprintf("$Mw%d_%s", ep, sanitize(k)) && !vc.declared["pres:"+name] {
+					vc.declared["pres:"+name] = true
+					for _, a := range vc.aliases[ep] {
+						if a.matches(k) {
+							vc.fact(a.guard, implies(a.cond, eq(name, vc.memGet(a.pre, k, vc.keySort[k]))))
+						}
+					}
+				}
+			}
+		}
+	}
 	for _, e := range con.Ensures {
 		// a property's check assumes only what the same run verifies: untagged clauses and
 		// clauses tagged with the property being checked
